@@ -38,6 +38,27 @@ pub static IN_CROSS: AtomicBool = AtomicBool::new(false);
 /// C02's cross mode: any dump request that panics, whoever made it, is a finding
 static WATCH_PANICS: AtomicBool = AtomicBool::new(false);
 
+/// Cross mode only: host explorers need not park the puppet's main (command-loop) thread before they
+/// dump, but the fidelity oracles read the target back afterwards.  Wait (bounded) until the main
+/// thread sits in read(2) again, as `Puppet::quiesce` does.
+pub fn before_dump() {
+    if ORACLE.read().unwrap_or_else(|e| e.into_inner()).is_none() {
+        return;
+    }
+    let Some(pid) = CUR.with(|c| c.borrow().as_ref().map(|(p, _, _)| *p)) else { return };
+    let exe = std::fs::read_link(format!("/proc/{pid}/exe")).map(|p| p.to_string_lossy().into_owned()).unwrap_or_default();
+    if !exe.ends_with("/puppet") {
+        return;
+    }
+    for _ in 0..3000 {
+        match std::fs::read_to_string(format!("/proc/{pid}/syscall")) {
+            Ok(s) if s.starts_with("0 ") => return,
+            Ok(_) => std::thread::sleep(std::time::Duration::from_millis(1)),
+            Err(_) => return,
+        }
+    }
+}
+
 pub fn current_opts_json() -> Value {
     let host = HOST.read().unwrap_or_else(|e| e.into_inner()).clone();
     CUR.with(|c| c.borrow().as_ref().map(|(pid, o, _)| json!({"cross_host": host, "pid": pid, "opts": o.to_json()}))).unwrap_or(Value::Null)
